@@ -59,6 +59,12 @@ def ambient():
     _ambient[0] += 1
     if _ambient[0] % 4000 != 1:
         return
+    ambient_now()
+
+
+def ambient_now():
+    """one round of ordinary use of the rest of the library (see ambient); harness/lib.py runs it every few hundred cases of
+    EVERY check, so that no property is decided on a process in which nothing else of the library ever ran"""
     import io
     from decimal import Decimal as D
     import stingray.estruct as E
